@@ -98,7 +98,7 @@ PROPS = {
         "assumptions": ["borrow checker: a function holding only &Word of a Freeze type cannot mutate it"],
     },
     "C15": {
-        "rules": [("FLW-2", flw.flw2), ("SHR-2", tab2.shr2), ("RT-1", tab2.rt1), ("SHR-4", r5.shr4), ("NRM-2", r5.nrm2), ("FLW-14", r5.flw14), ("SHR-5", r5.shr5)],
+        "rules": [("FLW-2", flw.flw2), ("SHR-2", tab2.shr2), ("RT-1", tab2.rt1), ("SHR-4", r5.shr4), ("NRM-2", r5.nrm2), ("RT-7", r5.rt7), ("FLW-14", r5.flw14), ("SHR-5", r5.shr5)],
         "explanation": "RT-1 (sibling clause): Word::render, used when romanisers are given, opens syllables with exactly the marks of the default renderer render_normal ('each printed word is the default rendering with the matched segments replaced'). SHR-2: in AliasParser::get_deromaniser / get_romaniser every Transformation takes its input from the input term list and its output from the output "
                        "term list, element i selected under that list's own `len() == 1` test (or through a cycled iterator), so `a, b > x` pairs (a,x),(b,x). "
                        "FLW-2 decides the noninterference clause of C15 exactly as an information-flow statement: Transformation vectors are coloured by the AliasKind constant "
